@@ -59,6 +59,7 @@ def constructs():
     add("anon", 'rule %s { strings: $ = "abcd" $ = "efgh" condition: 1 of them }')
     add("console", 'rule %s { condition: console.log("size=", filesize) and console.hex("h=", filesize) }', imports=("console",))
     add("defined", 'rule %s { condition: not defined pe.entry_point or pe.entry_point >= 0 }', imports=("pe",))
+    add("atomless", 'rule %s { strings: $r = /[ab][bc][cd][de][ab]{2,3}/ $w = /[ab][bc][x-z]{1,2}[cd]/ wide condition: $r or $w }')      # class-only strings: no atom, the whole regexp hangs off the root state
     add("manystrings", 'rule %s { strings: ' + " ".join('$s%d = "str%04d"' % (i, i) for i in range(40)) + ' condition: any of them }')
     # minimal rule sets: buffers of the compiled image that hold only a few bytes (one-instruction regexp code, a one-letter namespace name)
     add("tinymatches", 'rule %s { condition: "a" matches /x/ }')
